@@ -111,9 +111,24 @@ def verify_block(subject_kind):
         r.set('sigpkt', 'signature', E.VObj('pgpy.packet.fields.RSASignature', 'sigfield'))
         HD = z3.Const('HASHDATA', E.BYTES)
 
+        # contract of PGPSignature.hashdata (C01/hashdata scenarios): the octets to hash - or an error when the subject is not of the kind the
+        # signature type signs (a document signature over a user id, a certification over a key: AttributeError / TypeError), or when a
+        # standalone / timestamp signature is given a subject (PGPError)
+        unfit = z3.Int('how_the_subject_fails_to_fit_the_signature_type')
+        UNFIT = {1: 'TypeError', 2: 'AttributeError', 3: 'PGPError'}
+
         def hashdata(ex, st, o, a):
             st.ghost['hashdata_subject'] = a[0]
-            return [(st, E.VBytes(HD))]
+            if st.ghost.get('epoch'):
+                return [(st, E.VBytes(HD))]
+            outs = []
+            for code, exc in UNFIT.items():
+                s2 = st.clone()
+                s2.pc.append(unfit == code)
+                s2.ghost['no_hash_input'] = exc
+                outs.append((s2, E.Raise(exc, 0)))
+            st.pc.append(z3.And(*[unfit != c for c in UNFIT]))
+            return [(st, E.VBytes(HD))] + outs
         r.hook('pgpy.pgp.PGPSignature', 'hashdata', scn.method_hook(hashdata))
         r.hook('pgpy.pgp.PGPSignature', '__sig__', scn.const(E.VStr(s=('opaque', 'sigints'))))
         r.hook('pgpy.pgp.PGPSignature', 'hash_algorithm', scn.const(E.VInt(8, enum='pgpy.constants.HashAlgorithm')))
@@ -146,10 +161,17 @@ def verify_block(subject_kind):
             if isinstance(v, E.Raise) and v.exc.split(':')[0] == 'NotImplementedError':
                 r.oblige(s, 'NotImplementedError-only-when-the-key-has-no-signature-scheme/p', z3.And(z3.BoolVal(bool(s.ghost.get('sentinel'))), no_scheme), v.where)
                 continue
+            nohash = s.ghost.get('no_hash_input')
+            if isinstance(v, E.Raise) and nohash:
+                # no hash input could be formed for this signature and subject: the error is passed on as it is ("falsy or an error")
+                r.oblige(s, 'no-hash-input:the-error-of-hashdata-is-passed-on[%s]/p' % nohash, z3.BoolVal(v.exc.split(':')[0] == nohash), v.where)
+                continue
             if isinstance(v, E.Raise):
                 # the only other allowed error here: the signature names neither this key nor one of its subkeys
                 r.oblige(s, 'raises-only-for-foreign-issuer[%s]/p' % kind, z3.And(z3.BoolVal(v.exc.split(':')[0] == 'PGPError'), z3.Not(mine)), v.where)
                 continue
+            # a result that does not list the signature is truthy: never returned for a signature whose hash input could not be formed
+            r.oblige(s, 'no-hash-input:no-result-is-returned(a-result-without-the-signature-would-be-truthy)/p', z3.BoolVal(not nohash))
             r.oblige(s, 'the-no-scheme-sentinel-is-never-taken-for-a-verdict/p', z3.BoolVal(not s.ghost.get('sentinel')))
             entries = s.ghost.get('entries', ())
             deleg = s.ghost['delegated_to']
@@ -361,7 +383,17 @@ def verify_collect(subject_kind):
         r.hook(KEYC, 'check_soundness', scn.mconst(E.VInt(0, enum=SI)))
         r.hook(KEYC, 'check_primitives', scn.mconst(E.VInt(0, enum=SI)))
         r.set('key', '_key', E.VObj('pgpy.packet.packets.PubKeyV4', 'keypkt'))
-        r.hook(SIGC, 'hashdata', scn.method_hook(lambda ex, st, o, a: [(st, E.VBytes(z3.Const('HD', E.BYTES)))]))
+        # contract of hashdata: the octets to hash, or an error when the subject is not of the kind this signature's type signs
+        def hashdata(ex, st, o, a):
+            if subject_kind == 'key':          # four signatures: the error exit is exercised with the message and user id subjects
+                return [(st, E.VBytes(z3.Const('HD', E.BYTES)))]
+            s2 = st.clone()
+            fits = z3.Bool('subject_fits_the_type_of_%s' % o.ref)
+            st.pc.append(fits)
+            s2.pc.append(z3.Not(fits))
+            s2.ghost['no_hash_input'] = o.ref
+            return [(st, E.VBytes(z3.Const('HD', E.BYTES))), (s2, E.Raise('TypeError', 0))]
+        r.hook(SIGC, 'hashdata', scn.method_hook(hashdata))
         r.hook(SIGC, '__sig__', scn.const(E.VStr(s=('opaque', 'sigints'))))
         r.hook(SIGC, 'hash_algorithm', scn.const(E.VInt(8, enum='pgpy.constants.HashAlgorithm')))
         r.hook('pgpy.packet.packets.PubKeyV4', 'verify', scn.mconst(E.VBool(z3.Bool('crypto_ok'))))
@@ -403,6 +435,13 @@ def verify_collect(subject_kind):
         for pi, (s, v) in enumerate(r.call(key, [subject])):
             mine = {x.ref: z3.Or(signer[x.ref] == K0, signer[x.ref] == K1) for x in sigs}
             ex_ = s.ghost.get('examined', ())
+            nohash = s.ghost.get('no_hash_input')
+            if nohash:
+                # one of the collected signatures has no hash input for this subject: an error - never a result that leaves the signature
+                # out (it would be truthy as far as that signature is concerned)
+                r.oblige(s, 'no-hash-input(%s):the-error-of-hashdata-is-passed-on/p%d' % (nohash, pi),
+                         z3.BoolVal(isinstance(v, E.Raise) and v.exc.split(':')[0] == 'TypeError'), getattr(v, 'where', None))
+                continue
             if isinstance(v, E.Raise):
                 r.oblige(s, 'raises-PGPError-only-when-no-signature-names-this-key-or-a-subkey/p%d' % pi,
                          z3.And(z3.BoolVal(v.exc.split(':')[0] == 'PGPError' and len(ex_) == 0), z3.Not(z3.Or(*mine.values()))), v.where)
